@@ -11,7 +11,7 @@ import networkx as nx
 
 from .. import tables
 from ..callgraph import callgraph
-from ..pm import dotted, src
+from ..pm import FunctionInfo, dotted, src
 from ..q import FA, call_name, cfg_of, guard_facts, is_self_attr, walk_no_nested
 from ..resolve import resolver
 from ..rules.api import ext_aliases
@@ -328,6 +328,66 @@ def run(ctx):
             ctx.ob("R-RNG", "C14.5", f_, "an iteration over a set (hash order: differs between processes) is sorted or a reviewed order-insensitive use", why_ is not None, f"`{src(it_)[:60]}` in `{src(n_)[:70]}`" + (f": {why_}" if why_ else ": the order of its elements reaches a list / loop"), node=n_)
     ctx.require(n_set >= 5, f"only {n_set} set iterations found (the reviewed ones expected)")
     ctx.floor("C14.5", 5)
+
+    # ---- C14.6 who may read a parallelisation setting -------------------------------------------------------------------
+    # outside the evaluation machinery (Model's pool / batch evaluators, utils.multiprocessing, array_split_chunksize) a
+    # parallelisation setting is only forwarded under its own name, stored under its own name, tested, or logged: anything
+    # else (arithmetic, a size, an index, an argument of another name) lets the number of workers or the chunk size decide
+    # how many points are drawn or in which order - the results of a seeded run then depend on how it was parallelised
+    SETTINGS = {"likelihood_chunksize", "n_pool", "pool", "parallelise_prior"}
+    MACHINERY = ("nessai.model", "nessai.utils.multiprocessing", "nessai.utils.structures")
+    n_rd = 0
+    for f_ in prog.all_functions:
+        if f_.module.name in MACHINERY:
+            continue
+        par_ = {}
+        for n_ in ast.walk(f_.node):
+            for c_ in ast.iter_child_nodes(n_):
+                par_[id(c_)] = n_
+        pnames_ = SETTINGS | ({"chunksize"} & set(f_.params()))
+        for n_ in walk_no_nested(f_.node):
+            if isinstance(n_, ast.Attribute) and n_.attr in SETTINGS and isinstance(n_.ctx, ast.Load):
+                nm_ = n_.attr
+            elif isinstance(n_, ast.Name) and n_.id in pnames_ and isinstance(n_.ctx, ast.Load):
+                nm_ = n_.id
+            else:
+                continue
+            if isinstance(n_, ast.Name) and isinstance(par_.get(id(n_)), ast.Attribute):
+                continue  # `pool.map`: the receiver of an attribute access is judged at that attribute
+            n_rd += 1
+            ok_, how_ = False, ""
+            up_ = par_.get(id(n_))
+            chain_ = n_
+            # tests: `if x:`, `x is None`, `not x`, `a and x`
+            while isinstance(up_, (ast.BoolOp, ast.UnaryOp)) and (not isinstance(up_, ast.UnaryOp) or isinstance(up_.op, ast.Not)):
+                chain_, up_ = up_, par_.get(id(up_))
+            if isinstance(up_, ast.Compare) and len(up_.ops) == 1 and isinstance(up_.ops[0], (ast.Is, ast.IsNot)):
+                chain_, up_ = up_, par_.get(id(up_))
+                while isinstance(up_, (ast.BoolOp, ast.UnaryOp)):
+                    chain_, up_ = up_, par_.get(id(up_))
+            if isinstance(up_, (ast.If, ast.While, ast.IfExp)) and up_.test is chain_:
+                ok_, how_ = True, "tested"
+            elif chain_ is n_ and isinstance(up_, ast.keyword) and up_.arg in (nm_, "chunksize" if nm_ == "likelihood_chunksize" else nm_, "processes" if nm_ == "n_pool" else nm_):
+                ok_, how_ = True, "forwarded under its own name"
+            elif chain_ is n_ and isinstance(up_, ast.Assign) and up_.value is n_ and all(isinstance(t_, ast.Attribute) and t_.attr == nm_ for t_ in up_.targets):
+                ok_, how_ = True, "stored under its own name"
+            elif chain_ is n_ and isinstance(up_, ast.Call) and n_ in up_.args:
+                tg_ = res.resolve_call(f_, up_, count=False) or []
+                i_ = up_.args.index(n_)
+                def _pname(h_, i_=i_):
+                    ps_ = [a_.arg for a_ in h_.node.args.posonlyargs + h_.node.args.args]
+                    if ps_ and ps_[0] in ("self", "cls") and h_.cls is not None:
+                        ps_ = ps_[1:]
+                    return ps_[i_] if i_ < len(ps_) else None
+                ok_ = bool(tg_) and all(isinstance(h_, FunctionInfo) and _pname(h_) in SETTINGS | {"chunksize"} for h_ in tg_)
+                how_ = "forwarded positionally to a parameter of the same kind" if ok_ else ""
+                if not ok_ and (src(up_.func).startswith("logger.") or src(up_.func) in ("print", "str", "repr")):
+                    ok_, how_ = True, "logged"
+            elif isinstance(up_, (ast.FormattedValue,)):
+                ok_, how_ = True, "logged"
+            ctx.ob("R-WRITERS", "C14.6", f_, "outside the evaluation machinery a parallelisation setting is only tested, stored or forwarded under its own name", ok_, f"`{nm_}` in `{src(up_)[:70] if up_ is not None else ''}`" + (f" ({how_})" if ok_ else ": the setting is used as a value (a size / count / index would make the sampled points depend on the parallelisation)"), node=n_)
+    ctx.require(n_rd >= 8, f"only {n_rd} reads of parallelisation settings found outside the evaluation machinery (constructor forwarding expected)")
+    ctx.floor("C14.6", 8)
     ctx.assumptions += ["the user's likelihood and prior are deterministic and consume no randomness (premise of the property)", "torch/glasflow distribution sampling draws from torch's global generator", "bit identity itself, fork/pool behaviour and BLAS/torch thread non-determinism are not decided"]
 
 
@@ -521,13 +581,14 @@ def taint_attrs(prog):
 
 
 CLAIM = {
-    "text": "Whole-package randomness audit: every random-producing call site (50+, classified by the resolved library path) draws from the numpy or torch global generator; the stdlib random/secrets/uuid modules, os.urandom, default_rng/Generator/RandomState, torch.Generator, explicit generator= / random_state= arguments are absent (a planted fixture proves the rule fires); np.random.seed and torch.manual_seed are called only from configure_random_seed, with the stored seed, on every path, from the base constructor, to which both samplers forward the user's seed before any call that can consume randomness; no RNG-consuming call or lazily evaluated property (the 10-point vectorisation probes) is control-dependent on, or short-circuited by, a likelihood-parallelisation setting (pool, n_pool, chunksize, parallelise_prior) or a flag derived from one. The one dependence found - the probe skipped for a user pool of unknown size - is a recorded known finding. One obligation per (RNG-consuming site, setting it depends on), so a known dependence never hides a new one; the function / pool-wrapper / flag / probe table of the three batch evaluators is consistent, so enabling a pool or parallel prior evaluation does not change what is evaluated. Taints include plain names (constructor / function parameters) named like a parallelisation setting, and a read of an RNG-consuming property through an untyped receiver counts as a consumer. A read of a memoised probe dominated by an identical read, and numpy draws bracketed by get_state / try / finally set_state, consume nothing the rest of the run can see and are not obligations. No iteration over a set-typed expression orders anything that reaches the sampler (C14.5: str hashes differ between processes); the ten pristine set iterations are reviewed order-insensitive uses.",
+    "text": "Whole-package randomness audit: every random-producing call site (50+, classified by the resolved library path) draws from the numpy or torch global generator; the stdlib random/secrets/uuid modules, os.urandom, default_rng/Generator/RandomState, torch.Generator, explicit generator= / random_state= arguments are absent (a planted fixture proves the rule fires); np.random.seed and torch.manual_seed are called only from configure_random_seed, with the stored seed, on every path, from the base constructor, to which both samplers forward the user's seed before any call that can consume randomness; no RNG-consuming call or lazily evaluated property (the 10-point vectorisation probes) is control-dependent on, or short-circuited by, a likelihood-parallelisation setting (pool, n_pool, chunksize, parallelise_prior) or a flag derived from one. The one dependence found - the probe skipped for a user pool of unknown size - is a recorded known finding. One obligation per (RNG-consuming site, setting it depends on), so a known dependence never hides a new one; the function / pool-wrapper / flag / probe table of the three batch evaluators is consistent, so enabling a pool or parallel prior evaluation does not change what is evaluated. Taints include plain names (constructor / function parameters) named like a parallelisation setting, and a read of an RNG-consuming property through an untyped receiver counts as a consumer. A read of a memoised probe dominated by an identical read, and numpy draws bracketed by get_state / try / finally set_state, consume nothing the rest of the run can see and are not obligations. No iteration over a set-typed expression orders anything that reaches the sampler (C14.5: str hashes differ between processes); the ten pristine set iterations are reviewed order-insensitive uses. Outside the evaluation machinery (Model's pool and batch evaluators, utils.multiprocessing, array_split_chunksize) a parallelisation setting (likelihood_chunksize, n_pool, pool, parallelise_prior) is only tested, stored or forwarded under its own name - never used as a value that could size a pool or a batch of draws (C14.6).",
     "note": "Decides where randomness comes from and what its consumption may depend on, not bit identity: pool/fork behaviour, BLAS/torch thread non-determinism and the user's functions are outside the analysed program; ordered evaluation is C10.3.",
 }
 
 _M = "nessai/model.py"
 _B = "nessai/samplers/base.py"
 MUTANTS = [
+    {"id": "poolsize-rounded-to-chunks", "file": "nessai/samplers/nestedsampler.py", "old": "        if kwargs.get(\"poolsize\", None) is None:\n            kwargs[\"poolsize\"] = self.nlive\n", "new": "        if kwargs.get(\"poolsize\", None) is None:\n            kwargs[\"poolsize\"] = self.nlive + (self.model.likelihood_chunksize or 0)\n", "expect": "C14.6"},
     {"id": "pool-evaluates-other-prior", "file": _M, "old": "            func_wrapper=log_prior_unit_hypercube_wrapper,\n", "new": "            func_wrapper=log_prior_wrapper,\n", "expect": "with its own wrapper"},
     {"id": "probe-skipped-for-chunksize-one", "file": _M, "old": "            self.allow_vectorised and self.vectorised_likelihood,\n            chunksize=self.likelihood_chunksize,", "new": "            self.allow_vectorised and self.likelihood_chunksize != 1 and self.vectorised_likelihood,\n            chunksize=self.likelihood_chunksize,", "expect": "parallelisation setting `likelihood_chunksize`"},
     {"id": "private-generator", "file": "nessai/utils/sampling.py", "old": "import numpy as np\n", "new": "import numpy as np\n_RNG = np.random.default_rng()\n", "expect": "at import time"},
